@@ -647,6 +647,7 @@ def _sqrt_resolve(c, x, use_solver=True):
         # hints, 0, 1, earlier square roots and their pairwise products (|a x n| = |a||n| for a _|_ n)
         from .poly import which_zero
         prev = [v[0] for v in c.sqrt_memo.values() if isinstance(v[0], Term) and v[0].const is None]
+        prev = prev + [Term(e) for (e, _t) in getattr(c, 'exps', [])]      # exp(t) > 0 is a root candidate too
         hints = hints + prev + [prev[i] * prev[j] for i in range(len(prev)) for j in range(i, len(prev))]
         k = which_zero(c.rules, [x.e - g.e * g.e for g in hints], recips=c.recips)
         if k is not None:
@@ -861,6 +862,17 @@ def _match_atom(c, tests):
     return None if k is None else tests[k][0]
 
 
+def _same_angle_if_principal(c, nm, lo, hi):
+    """the atom itself when its declared range lies inside [lo, hi] (then the inverse function returns exactly it)"""
+    meta = c.atom_meta.get(nm, {})
+    alo, ahi = meta.get('lo'), meta.get('hi')
+    if alo is None or ahi is None:
+        return None
+    if Fraction(alo) >= lo and Fraction(ahi) <= hi:
+        return Term(c.atoms[nm][0], ({nm: Fraction(1)}, Fraction(0)))
+    return None
+
+
 def _angle_relation(c, t, base_v, sign, offsets, period):
     """t == sign*base_v + off + period*m for an integer m and one of the offsets"""
     m = c.fresh('wind', 'int')
@@ -897,6 +909,9 @@ def _atan2_new(c, yt, xt, ye, xe, p):
         k = Term(ye) * Term(sa) + Term(xe) * Term(ca)          # (y, x) == k * (sin a, cos a)
         k = _canonical(c, k)        # same factor written differently -> same decision (no duplicate forks)
         if (k > 0):
+            same = _same_angle_if_principal(c, hit, -PI * Fraction(9999, 10000), PI)
+            if same is not None:
+                return same
             t, s, co = new_atom('atan2', kind='atan2', pair=(sa, ca))
             _angle_relation(c, t.e, va, 1, [0], 2 * p)
         elif (k < 0):
@@ -960,6 +975,9 @@ def _acos_new(x):
         va, sa, ca = c.atoms[nm]
         # cos(phi) = sg*cos(a), sin(phi) = |sin a|, phi in [0, pi]
         if (Term(sa) >= 0):
+            same = _same_angle_if_principal(c, nm, Fraction(0), PI) if sg == 1 else None
+            if same is not None:
+                return same
             t, s, co = new_atom('acos', kind='acos', pair=(sa, sg * ca))
             _angle_relation(c, t.e, va, sg, [0] if sg == 1 else [p], 2 * p)
         else:
@@ -1020,6 +1038,9 @@ def _asin_new(x):
         va, sa, ca = c.atoms[nm]
         # sin(phi) = sg*sin(a), cos(phi) = |cos a|, phi in [-pi/2, pi/2]
         if (Term(ca) >= 0):
+            same = _same_angle_if_principal(c, nm, -PI / 2, PI / 2) if sg == 1 else None
+            if same is not None:
+                return same
             t, s, co = new_atom('asin', kind='asin', pair=(sg * sa, ca))
             _angle_relation(c, t.e, va, sg, [0], 2 * p)
         else:
@@ -1067,6 +1088,9 @@ def _atan_new(x):
         va, sa, ca = c.atoms[nm]
         # tan(phi) = sg*tan(a), cos(phi) > 0
         if (Term(ca) > 0):
+            same = _same_angle_if_principal(c, nm, -PI / 2 * Fraction(9999, 10000), PI / 2 * Fraction(9999, 10000)) if sg == 1 else None
+            if same is not None:
+                return same
             t, s, co = new_atom('atan', kind='atan', pair=(sg * sa, ca))
             _angle_relation(c, t.e, va, sg, [0], 2 * p)
         elif (Term(ca) < 0):
@@ -1095,6 +1119,9 @@ def _log(x):
             raise ValueError('math domain error')
         return Term.lift(0 if x.const == 1 else _math.log(float(x.const)))
     c = ctx()
+    for (e, te) in getattr(c, 'exps', []):
+        if e.eq(x.e):
+            return Term(te)          # log(exp(t)) = t, structurally
     if (x <= 0):
         raise ValueError('math domain error')
     if c.concolic:
